@@ -6,7 +6,7 @@
  * Non-trivial: N=3, or N=2 with non-zero (1,2) != (2,1) components; polar
  * decomposition: rotation angle > 0.1 rad and stretch ratio > 1.1.
  */
-#include "gens.hxx"
+#include "C02_common.hxx"
 #include "TFEL/Math/stensor.hxx"
 #include "TFEL/Math/tensor.hxx"
 #include "TFEL/Math/tmatrix.hxx"
@@ -16,39 +16,6 @@ using ref::R;
 using namespace tfel::math;
 
 namespace {
-
-  template <typename T>
-  constexpr R U() {
-    return static_cast<R>(std::numeric_limits<T>::epsilon());
-  }
-  template <typename T>
-  constexpr R tinyOf() {
-    return static_cast<R>(std::numeric_limits<T>::min()) * 1e3L;
-  }
-
-  //! the property's non-triviality rule for a matrix in dimension N
-  bool nonsym(const M3& m, int N) {
-    if (N == 3) return ref::norm(m) > 0;
-    if (N == 2) return m(0, 1) != 0 && m(1, 0) != 0 && m(0, 1) != m(1, 0);
-    return false;
-  }
-
-  template <typename TT>
-  void cmpT(verif::Case& c, const TT& t, const M3& e, R tol, const std::string& key,
-            const std::string& what) {
-    const int N = t.size() == 3 ? 1 : (t.size() == 5 ? 2 : 3);
-    const auto v = ref::toTensor(e);
-    for (int k = 0; k < ref::tensorSize(N); ++k)
-      c.close(static_cast<R>(t[k]), v[k], tol, key, what + " component " + std::to_string(k));
-  }
-  template <typename S>
-  void cmpS(verif::Case& c, const S& s, const M3& e, R tol, const std::string& key,
-            const std::string& what) {
-    const int N = s.size() == 3 ? 1 : (s.size() == 4 ? 2 : 3);
-    const auto v = ref::toStensor(e);
-    for (int k = 0; k < ref::stensorSize(N); ++k)
-      c.close(static_cast<R>(s[k]), v[k], tol, key, what + " component " + std::to_string(k));
-  }
 
   template <unsigned short N, typename T>
   void algebra(verif::Case& c) {
